@@ -91,6 +91,10 @@ def run_property(prop, tier, seed, replay=None):
                     a = axs.get(t)
                     out.obligation("theorem:" + t, a is not None and set(a) <= fw.ALLOWED_AXIOMS,
                                    "axioms: %s" % a if a is not None else "not found in module: " + raw[-500:])
+                if tier == "thorough":
+                    # the toolchain's independent re-checker replays the module's declarations through the kernel
+                    rc, lout = fw.run(["lake", "env", "leanchecker", m], cwd=fw.LEAN_DIR, timeout=3600)
+                    out.obligation("leanchecker:" + m, rc == 0, lout[-1500:])
             else:
                 for t in mod.THEOREMS.get(m, []):
                     out.obligation("theorem:" + t, False, "module %s does not build" % m)
